@@ -64,9 +64,9 @@ def _defs(events, upto):
     return d
 
 
-def origin(evs, upto, name):
-    """follow a tagged local name back through local copies and the return values of spliced helpers
-    -> (value_node, frame, index) of the expression that produced the object, or None"""
+def origin(evs, upto, name, frame=None):
+    """follow a tagged local name back through local copies, the return values of spliced helpers and (given the frame the name lives in) the arguments
+    bound to the parameters of spliced helpers -> (value_node, frame, index) of the expression that produced the object, or None"""
     last = None
     for _ in range(12):
         hit = None
@@ -76,6 +76,23 @@ def origin(evs, upto, name):
                 hit = (j, e)
                 break
         if hit is None:
+            # a parameter of a spliced helper: continue with the argument in the caller's frame
+            fr0 = frame if last is None else last[1]
+            if fr0 is not None and fr0.parent is not None and fr0.callsite is not None and name.endswith(fr0.tag) and fr0.tag:
+                pname = name[: len(name) - len(fr0.tag)]
+                params = [a.arg for a in fr0.func.args.args]
+                if params and params[0] == "self":
+                    params = params[1:]
+                if pname in params:
+                    k = params.index(pname)
+                    call = fr0.callsite
+                    arg = call.args[k] if k < len(call.args) else next((kw.value for kw in call.keywords if kw.arg == pname), None)
+                    ent = [i for i in range(upto - 1, -1, -1) if evs[i].kind == "enter" and evs[i].node is call]
+                    if arg is not None and ent:
+                        last = (arg, fr0.parent, ent[0])
+                        if isinstance(arg, ast.Name):
+                            name, upto = arg.id + fr0.parent.tag, ent[0]
+                            continue
             return last
         j, e = hit
         vn, fr = e.d.get("value_node"), e.frame
